@@ -459,12 +459,15 @@ func (p *Properties) Unpack(bufr *bytes.Buffer, packetType byte) error {
 
 // ValidProperties is a map of the various properties and the
 // PacketTypes that is valid for server to unpack.
+// The will properties of a CONNECT packet (payload format, message expiry, content type,
+// response topic, correlation data, will delay interval) are read by UnpackWillProperties,
+// which does not consult this table; they are not CONNECT properties.
 var ValidProperties = map[byte]map[byte]struct{}{
-	PropPayloadFormat:          {CONNECT: {}, PUBLISH: {}},
-	PropMessageExpiry:          {CONNECT: {}, PUBLISH: {}},
-	PropContentType:            {CONNECT: {}, PUBLISH: {}},
-	PropResponseTopic:          {CONNECT: {}, PUBLISH: {}},
-	PropCorrelationData:        {CONNECT: {}, PUBLISH: {}},
+	PropPayloadFormat:          {PUBLISH: {}},
+	PropMessageExpiry:          {PUBLISH: {}},
+	PropContentType:            {PUBLISH: {}},
+	PropResponseTopic:          {PUBLISH: {}},
+	PropCorrelationData:        {PUBLISH: {}},
 	PropSubscriptionIdentifier: {SUBSCRIBE: {}},
 	PropSessionExpiryInterval:  {CONNECT: {}, CONNACK: {}, DISCONNECT: {}},
 	PropAssignedClientID:       {CONNACK: {}},
@@ -472,7 +475,7 @@ var ValidProperties = map[byte]map[byte]struct{}{
 	PropAuthMethod:             {CONNECT: {}, CONNACK: {}, AUTH: {}},
 	PropAuthData:               {CONNECT: {}, CONNACK: {}, AUTH: {}},
 	PropRequestProblemInfo:     {CONNECT: {}},
-	PropWillDelayInterval:      {CONNECT: {}},
+	PropWillDelayInterval:      {},
 	PropRequestResponseInfo:    {CONNECT: {}},
 	PropResponseInfo:           {CONNACK: {}},
 	PropServerReference:        {CONNACK: {}, DISCONNECT: {}},
